@@ -405,6 +405,9 @@ def run_machine(desc):
                 self.bad('match() result', got=len(got), want=len(want))
             if not self.aborted and self.w.get_skipped() != self.sk:
                 self.bad('skipped counter after match()', got=self.w.get_skipped(), want=self.sk)
+            if self.aborted and self.w.get_skipped() != 0:
+                # every run starts its counter afresh, also one that ends at once because the object is still killed
+                self.bad('skipped counter after a run on a killed object', got=self.w.get_skipped(), want=0)
 
         @rule()
         def start_imatch(self):
@@ -506,6 +509,8 @@ def replay(case):
                 if step == 'match':
                     got = w.match()
                     ok = ok and got == ([] if aborted else U)
+                    if aborted:
+                        ok = ok and w.get_skipped() == 0
                 elif step == 'imatch':
                     it = w.imatch()
                     taken = []
